@@ -65,22 +65,24 @@ impl WatchList { #[verifier::external_body] pub fn grow(&mut self) { unimplement
 pub struct VariableNames { pub x: u8 }
 impl VariableNames { #[verifier::external_body] pub fn add_integer(&mut self, d: DomainId, name: String) { unimplemented!() } }
 
-pub struct EngineAssignments { pub level: usize, pub live: Ghost<Live> }
+// `pending_conflict`: propagation has detected a conflict on the current trail that has not been handled yet
+// (neither analysed nor undone by backtracking below the level at which it was found)
+pub struct EngineAssignments { pub level: usize, pub live: Ghost<Live>, pub pending_conflict: Ghost<bool> }
 impl EngineAssignments {
     #[verifier::external_body]
     pub fn get_decision_level(&self) -> (r: usize) ensures r == self.level { unimplemented!() }
     #[verifier::external_body]
     pub fn increase_decision_level(&mut self)
-        ensures final(self).level == old(self).level + 1, final(self).live == old(self).live { unimplemented!() }
+        ensures final(self).level == old(self).level + 1, final(self).live == old(self).live, final(self).pending_conflict == old(self).pending_conflict { unimplemented!() }
     #[verifier::external_body]
     pub fn post_predicate(&mut self, predicate: Predicate, reason: Option<u32>) -> (r: Result<(), EmptyDomain>)
-        ensures final(self).level == old(self).level,
+        ensures final(self).level == old(self).level, final(self).pending_conflict == old(self).pending_conflict,
                 forall|a: Asg| #![trigger (final(self).live@)(a)] #![trigger (old(self).live@)(a)] (final(self).live@)(a) <==> ((old(self).live@)(a) && pred_holds(predicate, a)),
                 r is Err ==> live_empty(final(self).live@),
     { unimplemented!() }
     #[verifier::external_body]
     pub fn grow(&mut self, lower_bound: i32, upper_bound: i32) -> (r: DomainId)
-        ensures final(self).level == old(self).level { unimplemented!() }
+        ensures final(self).level == old(self).level, final(self).pending_conflict == old(self).pending_conflict { unimplemented!() }
 }
 pub struct TrailedLike { pub x: u8 }
 impl TrailedLike { #[verifier::external_body] pub fn increase_decision_level(&mut self) { unimplemented!() } }
@@ -126,6 +128,8 @@ impl ConstraintSatisfactionSolver {
     pub open spec fn api_ready(&self) -> bool {
         self.assignments.level == 0
         && (self.state.internal_state is Ready || self.state.internal_state is Infeasible || self.state.internal_state is Conflict)
+        // a conflict found by propagation is never forgotten: a Ready solver has a consistent root trail
+        && (self.state.internal_state is Ready ==> !self.assignments.pending_conflict@)
     }
     // states in which the search loop hands a flag back to the API layer
     pub open spec fn flag_matches_state(&self, flag: CSPSolverExecutionFlag) -> bool {
@@ -133,7 +137,8 @@ impl ConstraintSatisfactionSolver {
             CSPSolverExecutionFlag::Feasible => self.state.internal_state is ContainsSolution,
             CSPSolverExecutionFlag::Timeout => self.state.internal_state is Timeout,
             CSPSolverExecutionFlag::Infeasible =>
-                self.state.internal_state is Infeasible
+                // infeasibility is only ever declared for a conflict found at the root
+                (self.state.internal_state is Infeasible && self.assignments.level == 0)
                 // the violated assumption was posted on its own decision level, so the trail is above the root
                 || (self.state.internal_state is InfeasibleUnderAssumptions && self.assignments.level > 0)
                 || (self.state.internal_state is Conflict && self.assignments.level == 0),
@@ -145,15 +150,16 @@ impl ConstraintSatisfactionSolver {
     pub fn backtrack<B: Brancher>(assignments: &mut EngineAssignments, a: &mut usize, b: &mut TrailedLike, c: &mut Misc, d: &mut WatchList,
         e: &mut Misc, f: &mut Misc, g: &mut Misc, backtrack_level: usize, brancher: &mut B, h: &mut TrailedLike)
         requires backtrack_level < old(assignments).level
-        ensures final(assignments).level == backtrack_level
+        ensures final(assignments).level == backtrack_level, !final(assignments).pending_conflict@
     { unimplemented!() }
 
     #[verifier::external_body]
     pub fn propagate(&mut self)
-        requires old(self).state.internal_state is Solving
+        requires old(self).state.internal_state is Solving, !old(self).assignments.pending_conflict@
         ensures final(self).assignments.level == old(self).assignments.level,
                 final(self).assumptions == old(self).assumptions,
                 final(self).state.internal_state is Solving || final(self).state.internal_state is Conflict,
+                final(self).assignments.pending_conflict@ == (final(self).state.internal_state is Conflict),
     { unimplemented!() }
 
     #[verifier::external_body]
@@ -173,7 +179,7 @@ impl ConstraintSatisfactionSolver {
         requires old(self).state.internal_state is Conflict, old(self).assignments.level > 0
         ensures final(self).assignments.level < old(self).assignments.level,
                 final(self).assumptions == old(self).assumptions,
-                final(self).state.internal_state is Solving,
+                final(self).state.internal_state is Solving, !final(self).assignments.pending_conflict@,
     { unimplemented!() }
 
 //@@EXTRACT csp_decide@@
